@@ -518,4 +518,514 @@ split.
   by have := uq t _ rpt; rewrite in_itv /= ta tb => /(_ isT) e; rewrite e ltxx in tr.
 Qed.
 
+(* ---------------------------------------------------------------- what every step does to a number: Keeps *)
+(* x' is again well formed, denotes the same real, a point stays a point, and every interval (A, B) that was a valid
+   (wider) isolating interval for x with the caches of x is one for x' with the caches of x' *)
+Definition Keeps x x' : Prop :=
+  [/\ WF x', den x' = den x, (af x = None -> af x' = None) &
+      forall A B, WF (an_set_I x A B) -> den (an_set_I x A B) = den x -> af x' <> None ->
+                  WF (an_set_I x' A B) /\ den (an_set_I x' A B) = den x'].
+
+Lemma Narrows_Keeps x x' : Narrows x x' -> Keeps x x'.
+Proof.
+move=> [wf dd sh]; split=> //.
+  by case: sh => [//|[-> _ _ _ _]].
+move=> A B wfW dW nn; case: sh => [//|[e1 e2 e3 _ _]].
+by rewrite /an_set_I e1 e2 e3 dd.
+Qed.
+
+Lemma Keeps_refl x : WF x -> Keeps x x.
+Proof. by move=> wf; apply: Narrows_Keeps; exact: Narrows_refl. Qed.
+
+Lemma Keeps_trans x1 x2 x3 : Keeps x1 x2 -> Keeps x2 x3 -> Keeps x1 x3.
+Proof.
+move=> [wf2 d2 n2 k2] [wf3 d3 n3 k3]; split=> //; first by rewrite d3.
+  by move=> /n2 /n3.
+move=> A B wfW dW nn.
+have nn2 : af x2 <> None by move=> /n3.
+by have [w2 e2] := k2 A B wfW dW nn2; apply: k3.
+Qed.
+
+Lemma ZR_mul_lt0 (u v : Z) (a b : R) : ZR u = sgr a -> ZR v = sgr b -> (u * v <? 0)%ZZ -> sgr a * sgr b = -1.
+Proof.
+move=> eu ev /Z.ltb_lt lt; have : ZR (u * v) < 0 by rewrite ZR_lt0; apply/Z.ltb_lt.
+by rewrite ZR_mul eu ev -sgrM sgr_lt0 => /ltr0_sg.
+Qed.
+
+Lemma reduce_Keeps x l (g : seq Z) : WF x -> af x = Some l -> divides_poly g l ->
+  (psgn_dy g (aa x) * psgn_dy g (ab x) <? 0)%ZZ ->
+  Keeps x (an_reduce x g (psgn_dy g (aa x)) (psgn_dy g (ab x))).
+Proof.
+move=> wf E dv neg; have Er := WF_roots wf E.
+have sub t : root (pR g) t -> root (pR l) t := divides_root dv.
+have sg := ZR_mul_lt0 (psgn_dyP g (aa x)) (psgn_dyP g (ab x)) neg.
+have Eg := reduce_roots Er sub sg.
+move: (wf); rewrite /WF E => -[_ _ _ _ ni].
+split.
+- by rewrite /WF /=; split=> //; [exists (den x) | exact: psgn_dyP | exact: psgn_dyP].
+- by rewrite {1}/den /= Eg.
+- by rewrite E.
+move=> A B wfW dW _.
+have EW : af (an_set_I x A B) = Some l by [].
+have ErW := WF_roots wfW EW; rewrite dW /= in ErW.
+move: (wfW); rewrite /WF EW /= => -[_ _ _ sW niW].
+have [EgW sA sB] := reduce_wide Er ErW sub sg sW.
+split; last by rewrite /den /= EgW Eg.
+rewrite /WF /=; split=> //; first by exists (den x).
+- by rewrite psgn_dyP sA.
+- by rewrite psgn_dyP sB.
+- by rewrite sA sB.
+Qed.
+
+(* ---------------------------------------------------------------- comparison of two numbers: what happens to them *)
+Lemma prepare_ok x (y : anum) : WF x -> WF y ->
+  Narrows x (an_cmp_prepare x y).1 /\ Narrows y (an_cmp_prepare x y).2.
+Proof.
+move=> wfx wfy; rewrite /an_cmp_prepare.
+case: (an_disjoint x y); first by split; exact: Narrows_refl.
+case: (an_intersection x y) => [[lo hi] pt].
+have nx := refine_with_point_ok lo wfx; have ny := refine_with_point_ok lo wfy.
+case: pt => //=; have [wx1 _ _] := nx; have [wy1 _ _] := ny.
+split; [apply: Narrows_trans nx _ | apply: Narrows_trans ny _]; exact: refine_with_point_ok.
+Qed.
+
+Lemma bisect_ok fuel x (y : anum) x' y' : WF x -> WF y ->
+  an_bisect_away fuel x y = Some (x', y') -> Narrows x x' /\ Narrows y y'.
+Proof.
+elim: fuel x y => [|fuel IH] x y wfx wfy //=.
+have nx := refine_dir_ok wfx; have ny := refine_dir_ok wfy.
+case: (an_refine_dir x) nx => [x1 d1] /= nx; case: (an_refine_dir y) ny => [y1 d2] /= ny.
+have [wx1 _ _] := nx; have [wy1 _ _] := ny.
+case: ifP => _; last by move=> [<- <-].
+by move=> /(IH _ _ wx1 wy1) [n1 n2]; split; [exact: Narrows_trans nx n1 | exact: Narrows_trans ny n2].
+Qed.
+
+Definition gcd_ok (g : seq Z) x (y : anum) : Prop :=
+  forall lx ly, af x = Some lx -> af y = Some ly -> divides_poly g lx /\ divides_poly g ly.
+
+Lemma Narrows_af x x' l : Narrows x x' -> af x' = Some l -> af x = Some l.
+Proof. by move=> [_ _ [->//|[<-]]]. Qed.
+
+Lemma same_intervalP x (y : anum) : an_same_interval x y ->
+  [/\ af x <> None, af y <> None, dyR (aa x) = dyR (aa y) & dyR (ab x) = dyR (ab y)].
+Proof.
+rewrite /an_same_interval !is_pointE !dyq_eqP => /andP[/andP[/andP[/eqP h1 /eqP h2] /eqP h3] /eqP h4].
+by split.
+Qed.
+
+Lemma cmp_keeps fuel x (y : anum) g x' y' c : WF x -> WF y -> gcd_ok g x y ->
+  an_cmp fuel x y g = Some ((x', y'), c) -> Keeps x x' /\ Keeps y y'.
+Proof.
+move=> wfx wfy gok; rewrite /an_cmp.
+have [] := prepare_ok wfx wfy; case: (an_cmp_prepare x y) => [x1 y1] /= nx ny.
+have [wx1 _ _] := nx; have [wy1 _ _] := ny.
+have kx := Narrows_Keeps nx; have ky := Narrows_Keeps ny.
+case S: (an_same_interval x1 y1); last by move=> [<- <- _].
+have [nnx nny ea eb] := same_intervalP S.
+case N: (_ <? 0)%ZZ.
+  move=> [<- <- _].
+  case Ex: (af x1) nnx => [lx|//] _; case Ey: (af y1) nny => [ly|//] _.
+  have [dx dy] := gok _ _ (Narrows_af nx Ex) (Narrows_af ny Ey).
+  split; [apply: Keeps_trans kx _ | apply: Keeps_trans ky _].
+    exact: (reduce_Keeps wx1 Ex dx N).
+  have ea' : psgn_dy g (aa x1) = psgn_dy g (aa y1).
+    have := psgn_dyP g (aa x1); rewrite ea -psgn_dyP => /eqP; rewrite -subr_eq0 -ZR_sub ZR_eq0 => /Z.eqb_eq; lia.
+  have eb' : psgn_dy g (ab x1) = psgn_dy g (ab y1).
+    have := psgn_dyP g (ab x1); rewrite eb -psgn_dyP => /eqP; rewrite -subr_eq0 -ZR_sub ZR_eq0 => /Z.eqb_eq; lia.
+  have -> : an_reduce y1 g (psgn_dy g (aa x1)) (psgn_dy g (ab x1)) = an_reduce y1 g (psgn_dy g (aa y1)) (psgn_dy g (ab y1)).
+    by rewrite ea' eb'.
+  by apply: (reduce_Keeps wy1 Ey dy); rewrite -ea' -eb'.
+case B: (an_bisect_away fuel x1 y1) => [[x2 y2]|//] [<- <- _].
+have [n1 n2] := bisect_ok wx1 wy1 B.
+by split; [apply: Keeps_trans kx _ | apply: Keeps_trans ky _]; exact: Narrows_Keeps.
+Qed.
+
+(* ---------------------------------------------------------------- the pool *)
+Lemma nth_set_same (l : list (option anum)) i v : (i < List.length l)%N -> List.nth i (Refine.set_nth l i v) None = v.
+Proof. by elim: l i => [|h t IH] [|i] //=; exact: IH. Qed.
+Lemma nth_set_other (l : list (option anum)) i k v : k <> i -> List.nth k (Refine.set_nth l i v) None = List.nth k l None.
+Proof.
+elim: l i k => [|h t IH] [|i] [|k] //= ne.
+by apply: IH => e; apply: ne; rewrite e.
+Qed.
+Lemma nth_Some_lt (l : list (option anum)) i v : List.nth i l None = Some v -> (i < List.length l)%N.
+Proof. by elim: l i => [|h t IH] [|i] //=; exact: IH. Qed.
+Lemma length_set (l : list (option anum)) i v : List.length (Refine.set_nth l i v) = List.length l.
+Proof. by elim: l i => [|h t IH] [|i] //=; rewrite IH. Qed.
+
+Lemma get_put_same s i v w : get s i = Some w -> get (put s i v) i = v.
+Proof. by move=> /nth_Some_lt; exact: nth_set_same. Qed.
+Lemma get_put_other s i k v : k <> i -> get (put s i v) k = get s k.
+Proof. exact: nth_set_other. Qed.
+
+Definition dens (s : state) (i : nat) : option R := omap den (get s i).
+
+Definition SavedOK (s : state) : Prop :=
+  forall i A B x, List.In (i, Some (A, B)) (saved s) -> get s i = Some x -> af x <> None ->
+    WF (an_set_I x A B) /\ den (an_set_I x A B) = den x.
+
+Definition Inv (s : state) : Prop := (forall i x, get s i = Some x -> WF x) /\ SavedOK s.
+
+Definition op_ok (s : state) (o : op) : Prop :=
+  match o with
+  | OCmp i j g => forall x y, get s i = Some x -> get s j = Some y -> gcd_ok g x y
+  | OCmpQ _ q => (0 < q.2)%ZZ
+  | _ => Logic.True
+  end.
+
+Lemma eq_natP (i k : nat) : reflect (i = k) (Nat.eqb i k).
+Proof. exact: Nat.eqb_spec. Qed.
+
+Lemma Inv_put s i x x' : Inv s -> get s i = Some x -> Keeps x x' ->
+  Inv (put s i (Some x')) /\ (forall k, dens (put s i (Some x')) k = dens s k).
+Proof.
+move=> [wfs sv] gi [wf' dd nn kk]; split; first split.
+- move=> k z; have [->|ne] := eqVneq k i; first by rewrite (get_put_same _ gi) => -[<-].
+  by rewrite get_put_other; [exact: wfs | exact/eqP].
+- move=> k A B z /= hin; have [e|ne] := eqVneq k i.
+    rewrite e (get_put_same _ gi) => -[<-] nz; rewrite e in hin.
+    have nx : af x <> None by move=> /nn.
+    by have [w d] := sv _ _ _ _ hin gi nx; apply: kk.
+  by rewrite get_put_other; [exact: sv | exact/eqP].
+- move=> k; rewrite /dens; have [->|ne] := eqVneq k i; first by rewrite (get_put_same _ gi) gi /= dd.
+  by rewrite get_put_other //; exact/eqP.
+Qed.
+
+Lemma has_savedF s i c : has_saved s i = false -> ~ List.In (i, c) (saved s).
+Proof.
+rewrite /has_saved; elim: (saved s) => [|e t IH] /=; first by move=> _ [].
+move=> /negbT /norP[ne /negbTE nt] [ee|]; last exact: IH.
+by move: ne; rewrite ee /= Nat.eqb_refl.
+Qed.
+
+Lemma take_savedP (l : list (nat * option (dyq * dyq))) i c rest : take_saved l i = Some (c, rest) ->
+  List.In (i, c) l /\ (forall w, List.In w rest -> List.In w l).
+Proof.
+elim: l rest => [|[k ck] t IH] rest //=.
+case: eq_natP => [->|ne].
+  by move=> [<- <-]; split; [left | move=> e; right].
+case T: (take_saved t i) => [[c' t']|//] [ec et]; rewrite ec in T; have [h1 h2] := IH _ T.
+split; first by right.
+by rewrite -et => e [<-|/h2]; [left | right].
+Qed.
+
+Lemma set_I_id x : an_set_I x (aa x) (ab x) = x.
+Proof. by case: x. Qed.
+
+(* ---------------------------------------------------------------- one step *)
+Theorem step_ok fuel s o s' (ob : obs) : Inv s -> op_ok s o -> step fuel s o = Some (s', ob) ->
+  Inv s' /\ (forall k, ~~ assigns o k -> dens s' k = dens s k).
+Proof.
+move=> inv; have [wfs sv] := inv; case: o => /=.
+- (* ORefine *)
+  move=> i _; case G: (get s i) => [x|//] [<- _].
+  have [? h] := Inv_put inv G (Narrows_Keeps (refine_ok (wfs _ _ G))); split=> // k _; exact: h.
+- (* ORefinePt *)
+  move=> i q _; case G: (get s i) => [x|//] [<- _].
+  have [? h] := Inv_put inv G (Narrows_Keeps (refine_with_point_ok q (wfs _ _ G))); split=> // k _; exact: h.
+- (* OCmpQ *)
+  move=> i q q0; case G: (get s i) => [x|//]; case C: (an_cmp_q fuel x q) => [[x' c]|//] [<- _].
+  have [nr _] := cmp_q_ok (wfs _ _ G) q0 C.
+  have [? h] := Inv_put inv G (Narrows_Keeps nr); split=> // k _; exact: h.
+- (* OSgn *)
+  move=> i _; case G: (get s i) => [x|//]; case C: (an_cmp_q fuel x (0%ZZ, 1%ZZ)) => [[x' c]|//] [<- _].
+  have q0 : (0 < (0%ZZ, 1%ZZ).2)%ZZ by [].
+  have [nr _] := cmp_q_ok (wfs _ _ G) q0 C.
+  have [? h] := Inv_put inv G (Narrows_Keeps nr); split=> // k _; exact: h.
+- (* OCmp *)
+  move=> i j g gok; case: eq_natP => [//|ne].
+  case Gi: (get s i) => [x|//]; case Gj: (get s j) => [y|//].
+  case C: (an_cmp fuel x y g) => [[[x' y'] c]|//] [<- _].
+  have [kx ky] := cmp_keeps (wfs _ _ Gi) (wfs _ _ Gj) (gok _ _ Gi Gj) C.
+  have [inv1 h1] := Inv_put inv Gi kx.
+  have Gj1 : get (put s i (Some x')) j = Some y by rewrite get_put_other // => e; apply: ne.
+  have [inv2 h2] := Inv_put inv1 Gj1 ky.
+  by split=> // k _; rewrite h2 h1.
+- (* OFloor *)
+  by move=> i _; case G: (get s i) => [x|//] [<- _].
+- (* OCopy *)
+  move=> i j _; case H: (has_saved s j || _) => //; move: H => /norP[/negbTE hs /negPn /Nat.ltb_lt jlt].
+  case G: (get s i) => [x|//] [<- _].
+  have gsame : get (put s j (Some x)) j = Some x by apply: nth_set_same; apply/ssrnat.ltP.
+  split; first split.
+  + move=> k z; have [->|nk] := eqVneq k j; first by rewrite gsame => -[<-]; exact: wfs G.
+    by rewrite get_put_other; [exact: wfs | exact/eqP].
+  + move=> k A B z /= hin; have [e|nk] := eqVneq k j; first by rewrite e in hin; case: (has_savedF hs hin).
+    by rewrite get_put_other; [exact: sv | exact/eqP].
+  + move=> k; case: eq_natP => // nk _; rewrite /dens get_put_other // => e; exact: nk.
+- (* ODestroy *)
+  move=> i _; case hs: (has_saved s i) => //; case G: (get s i) => [x|//] [<- _].
+  split; first split.
+  + move=> k z; have [->|nk] := eqVneq k i; first by rewrite (get_put_same _ G).
+    by rewrite get_put_other; [exact: wfs | exact/eqP].
+  + move=> k A B z /= hin; have [e|nk] := eqVneq k i; first by rewrite e in hin; case: (has_savedF hs hin).
+    by rewrite get_put_other; [exact: sv | exact/eqP].
+  + move=> k; case: eq_natP => // nk _; rewrite /dens get_put_other // => e; exact: nk.
+- (* ORemember *)
+  move=> i _; case G: (get s i) => [x|//] [<- _]; split=> //; split=> //.
+  move=> k A B z /= [[<-]|hin]; last exact: sv hin.
+  rewrite /an_remember; case: (an_is_rational x) => // -[<- <-] Gz _.
+  have : get s i = Some z by []. rewrite G => -[<-].
+  by rewrite set_I_id; split=> //; exact: wfs G.
+- (* ORestore *)
+  move=> i _; case G: (get s i) => [x|//]; case T: (take_saved (saved s) i) => [[c rest]|//] [<- _].
+  have [hin hsub] := take_savedP T.
+  have kr : Keeps x (an_restore x c) /\ (forall A B, af (an_restore x c) <> None ->
+              an_set_I (an_restore x c) A B = an_set_I x A B).
+    rewrite /an_restore; case: c hin {T} => [[A B]|] hin; last by split=> //; exact: Keeps_refl (wfs _ _ G).
+    rewrite is_pointE; case E: (af x) => [l|] /=; last by split=> //; exact: Keeps_refl (wfs _ _ G).
+    have nx : af x <> None by rewrite E.
+    have [w d] := sv _ _ _ _ hin G nx.
+    split=> //; split=> //.
+    by move=> A' B' w' d' _; split=> //; rewrite d -d'.
+  have [[wf' dd nn kk] same] := kr.
+  have gsame : get (mkState (Refine.set_nth (pool s) i (Some (an_restore x c))) rest) i = Some (an_restore x c).
+    exact: (get_put_same _ G).
+  have gother k : k <> i -> get (mkState (Refine.set_nth (pool s) i (Some (an_restore x c))) rest) k = get s k.
+    by move=> nk; exact: nth_set_other.
+  split; first split.
+  + move=> k z; have [->|nk] := eqVneq k i; first by rewrite gsame => -[<-].
+    by rewrite gother; [exact: wfs | exact/eqP].
+  + move=> k A B z /= /hsub hin'; have [e|nk] := eqVneq k i.
+      rewrite e gsame => -[<-] nz; rewrite e in hin'.
+      have nx : af x <> None by move=> /nn.
+      by have [w d] := sv _ _ _ _ hin' G nx; rewrite same // dd.
+    by rewrite gother; [exact: sv | exact/eqP].
+  + move=> k _; rewrite /dens; have [->|nk] := eqVneq k i; first by rewrite gsame G /= dd.
+    by rewrite gother //; exact/eqP.
+Qed.
+
+(* ---------------------------------------------------------------- all histories *)
+Fixpoint hist_ok (fuel : nat) (s : state) (ops : list op) : Prop :=
+  match ops with
+  | nil => Logic.True
+  | o :: rest => op_ok s o /\ (forall s' ob, step fuel s o = Some (s', ob) -> hist_ok fuel s' rest)
+  end.
+
+Definition assigned_in (ops : list op) (k : nat) : bool := List.existsb (fun o => assigns o k) ops.
+
+Theorem run_ok fuel ops s s' (obl : list obs) : Inv s -> hist_ok fuel s ops -> run fuel s ops = Some (s', obl) ->
+  Inv s' /\ (forall k, ~~ assigned_in ops k -> dens s' k = dens s k).
+Proof.
+elim: ops s s' obl => [|o ops IH] s s' obl inv /=; first by move=> _ [<- _].
+move=> [ok hk]; case S: (step fuel s o) => [[s1 ob]|//].
+case Rn: (run fuel s1 ops) => [[s2 obl2]|//] [<- _].
+have [inv1 d1] := step_ok inv ok S.
+have [inv2 d2] := IH _ _ _ inv1 (hk _ _ S) Rn.
+by split=> // k /norP[na nb]; rewrite d2 // d1.
+Qed.
+
+(* ---------------------------------------------------------------- observations are functions of the denotations *)
+Definition obs_spec (dn : nat -> option R) (o : op) (ob : obs) : Prop :=
+  match o, ob with
+  | OCmpQ i q, OInt c => exists2 v, dn i = Some v & ZR c = sgr (v - qR q)
+  | OSgn i, OInt c => exists2 v, dn i = Some v & ZR c = sgr v
+  | OFloor i, OInt z => exists2 v, dn i = Some v & ZR z <= v < ZR z + 1
+  | OCmp i j _, OInt c => exists v w, [/\ dn i = Some v, dn j = Some w & ZR c = sgr (v - w)]
+  | ORefine _, ONone | ORefinePt _ _, ONone | OCopy _ _, ONone | ODestroy _, ONone
+  | ORemember _, ONone | ORestore _, ONone => Logic.True
+  | _, _ => Logic.False
+  end.
+
+Definition is_cmp (o : op) : bool := match o with OCmp _ _ _ => true | _ => false end.
+
+Lemma step_obs_nocmp fuel s o s' (ob : obs) : Inv s -> op_ok s o -> ~~ is_cmp o ->
+  step fuel s o = Some (s', ob) -> obs_spec (dens s) o ob.
+Proof.
+move=> [wfs _]; case: o => //=.
+- by move=> i _ _; case: (get s i) => [x|//] [_ <-].
+- by move=> i q _ _; case: (get s i) => [x|//] [_ <-].
+- move=> i q q0 _; case G: (get s i) => [x|//]; case C: (an_cmp_q fuel x q) => [[x' c]|//] [_ <-].
+  by have [_ h] := cmp_q_ok (wfs _ _ G) q0 C; exists (den x) => //; rewrite /dens G.
+- move=> i _ _; case G: (get s i) => [x|//]; case C: (an_cmp_q fuel x (0%ZZ, 1%ZZ)) => [[x' c]|//] [_ <-].
+  have q0 : (0 < (0%ZZ, 1%ZZ).2)%ZZ by [].
+  have [_ h] := cmp_q_ok (wfs _ _ G) q0 C; exists (den x); first by rewrite /dens G.
+  by rewrite h /qR /= ZR_0 mul0r subr0.
+- move=> i _ _; case G: (get s i) => [x|//] [_ <-].
+  by exists (den x); [rewrite /dens G | exact: floor_ok (wfs _ _ G)].
+- by move=> i j _ _; case: (_ || _) => //; case: (get s i) => [x|//] [_ <-].
+- by move=> i _ _; case: (has_saved s i) => //; case: (get s i) => [x|//] [_ <-].
+- by move=> i _ _; case: (get s i) => [x|//] [_ <-].
+- by move=> i _ _; case: (get s i) => [x|//]; case: (take_saved _ _) => [[c rest]|//] [_ <-].
+Qed.
+
+Lemma ZR_inj (u v : Z) : ZR u = ZR v -> u = v.
+Proof. by move=> /eqP; rewrite ZR_eq => /Z.eqb_eq. Qed.
+
+Lemma floor_unique (u v : Z) (t : R) : ZR u <= t < ZR u + 1 -> ZR v <= t < ZR v + 1 -> u = v.
+Proof.
+move=> /andP[a1 a2] /andP[b1 b2].
+have h1 : ZR u < ZR (v + 1)%ZZ by rewrite ZR_add ZR_1; exact: le_lt_trans a1 b2.
+have h2 : ZR v < ZR (u + 1)%ZZ by rewrite ZR_add ZR_1; exact: le_lt_trans b1 a2.
+by move: h1 h2; rewrite !ZR_lt => /Z.ltb_lt h1 /Z.ltb_lt h2; lia.
+Qed.
+
+(* the slots an operation reads *)
+Definition reads (o : op) (k : nat) : bool :=
+  match o with
+  | OCmpQ i _ | OSgn i | OFloor i => Nat.eqb i k
+  | OCmp i j _ => Nat.eqb i k || Nat.eqb j k
+  | _ => false
+  end.
+(* the same query (the gcd oracle of a comparison is not part of the question) *)
+Definition same_query (o o' : op) : Prop :=
+  match o, o' with
+  | OCmp i j _, OCmp i' j' _ => i = i' /\ j = j'
+  | _, _ => o = o'
+  end.
+
+Lemma obs_spec_functional (dn dn' : nat -> option R) o o' (ob ob' : obs) : same_query o o' ->
+  (forall k, reads o k -> dn' k = dn k) ->
+  obs_spec dn o ob -> obs_spec dn' o' ob' -> ob = ob'.
+Proof.
+have triv : (match ob with ONone => Logic.True | OInt _ => Logic.False end) ->
+            (match ob' with ONone => Logic.True | OInt _ => Logic.False end) -> ob = ob'.
+  by case: ob => //; case: ob'.
+case: o => [i|i q|i q|i|i j g|i|i j|i|i|i]; case: o' => [i'|i' q'|i' q'|i'|i' j' g'|i'|i' j'|i'|i'|i'] //=; try (by move=> _ _; exact: triv).
+all: clear triv.
+- move=> [<- <-] ag; case: ob => // c; case: ob' => // c' [v e1 e2] [v' e1' e2'].
+  have := ag i; rewrite Nat.eqb_refl e1 e1' => /(_ isT) [ev]; rewrite ev in e2'.
+  by congr OInt; apply: ZR_inj; rewrite e2 e2'.
+- move=> [<-] ag; case: ob => // c; case: ob' => // c' [v e1 e2] [v' e1' e2'].
+  have := ag i; rewrite Nat.eqb_refl e1 e1' => /(_ isT) [ev]; rewrite ev in e2'.
+  by congr OInt; apply: ZR_inj; rewrite e2 e2'.
+- move=> [<- <-] ag; case: ob => // c; case: ob' => // c' [v [w [e1 e2 e3]]] [v' [w' [e1' e2' e3']]].
+  have := ag i; rewrite Nat.eqb_refl e1 e1' => /(_ isT) [ev].
+  have := ag j; rewrite Nat.eqb_refl orbT e2 e2' => /(_ isT) [ew]; rewrite ev ew in e3'.
+  by congr OInt; apply: ZR_inj; rewrite e3 e3'.
+- move=> [<-] ag; case: ob => // c; case: ob' => // c' [v e1 e2] [v' e1' e2'].
+  have := ag i; rewrite Nat.eqb_refl e1 e1' => /(_ isT) [ev]; rewrite ev in e2'.
+  by congr OInt; exact: floor_unique e2 e2'.
+Qed.
+
+Lemma reads_not_assign o k k' : reads o k -> assigns o k' = false.
+Proof. by case: o. Qed.
+
+Lemma same_query_cmp o o' : same_query o o' -> is_cmp o' = is_cmp o.
+Proof. by case: o => [i|i q|i q|i|i j g|i|i j|i|i|i]; case: o' => //= *; try discriminate. Qed.
+
+(* the generic stability argument; step_obs is the correctness of single observations *)
+Lemma obs_stable_gen (P : op -> bool) fuel s o o' mid s1 (ob1 : obs) s2 (obl : list obs) s3 (ob2 : obs) :
+  (forall fuel s o s' (ob : obs), Inv s -> op_ok s o -> P o -> step fuel s o = Some (s', ob) -> obs_spec (dens s) o ob) ->
+  P o -> P o' ->
+  Inv s -> same_query o o' ->
+  op_ok s o -> step fuel s o = Some (s1, ob1) ->
+  hist_ok fuel s1 mid -> run fuel s1 mid = Some (s2, obl) ->
+  op_ok s2 o' -> step fuel s2 o' = Some (s3, ob2) ->
+  (forall k, reads o k -> ~~ assigned_in mid k) ->
+  ob1 = ob2.
+Proof.
+move=> sobs Po Po' inv sq ok1 S1 hk Rn ok2 S2 na.
+have sp1 := sobs _ _ _ _ _ inv ok1 Po S1.
+have [inv1 d1] := step_ok inv ok1 S1.
+have [inv2 d2] := run_ok inv1 hk Rn.
+have sp2 := sobs _ _ _ _ _ inv2 ok2 Po' S2.
+apply: (obs_spec_functional sq _ sp1 sp2) => k rk.
+by rewrite d2 ?na // d1 // (reads_not_assign _ rk).
+Qed.
+
+Theorem obs_stable_nocmp fuel s o o' mid s1 (ob1 : obs) s2 (obl : list obs) s3 (ob2 : obs) :
+  Inv s -> same_query o o' -> ~~ is_cmp o ->
+  op_ok s o -> step fuel s o = Some (s1, ob1) ->
+  hist_ok fuel s1 mid -> run fuel s1 mid = Some (s2, obl) ->
+  op_ok s2 o' -> step fuel s2 o' = Some (s3, ob2) ->
+  (forall k, reads o k -> ~~ assigned_in mid k) ->
+  ob1 = ob2.
+Proof.
+move=> inv sq nc; apply: (@obs_stable_gen (fun o => ~~ is_cmp o)) => //.
+  by move=> f0 s0 o0 s0' ob0 i0 k0 n0 S0; exact: (step_obs_nocmp i0 k0 n0 S0).
+by rewrite (same_query_cmp sq).
+Qed.
+
+(* ---------------------------------------------------------------- copies stay equal to the original *)
+Theorem copy_stays_equal fuel s i j s1 (ob : obs) ops s2 (obl : list obs) :
+  Inv s -> step fuel s (OCopy i j) = Some (s1, ob) ->
+  hist_ok fuel s1 ops -> run fuel s1 ops = Some (s2, obl) ->
+  ~~ assigned_in ops i -> ~~ assigned_in ops j ->
+  exists v, [/\ dens s i = Some v, dens s2 i = Some v & dens s2 j = Some v].
+Proof.
+move=> inv S hk Rn ni nj.
+have [inv1 d1] := step_ok inv (I : op_ok s (OCopy i j)) S.
+have [inv2 d2] := run_ok inv1 hk Rn.
+move: S => /=; case H: (_ || _) => //; move: H => /norP[_ /negPn /Nat.ltb_lt jlt].
+case G: (get s i) => [x|//] [e _]; exists (den x).
+have gj : get s1 j = Some x by rewrite -e; apply: nth_set_same; apply/ssrnat.ltP.
+have gi : get s1 i = Some x.
+  have [ij|/eqP ne] := eqVneq i j; first by rewrite ij.
+  by rewrite -e get_put_other.
+by split; rewrite ?d2 // /dens ?G ?gi ?gj.
+Qed.
+
+(* ---------------------------------------------------------------- remember ... restore *)
+Definition is_query (o : op) : bool :=
+  match o with
+  | ORefine _ | ORefinePt _ _ | OCmpQ _ _ | OSgn _ | OCmp _ _ _ | OFloor _ => true
+  | _ => false
+  end.
+
+Lemma run_app fuel ops1 ops2 s : run fuel s (ops1 ++ ops2) =
+  match run fuel s ops1 with
+  | Some (s1, o1) => match run fuel s1 ops2 with Some (s2, o2) => Some (s2, o1 ++ o2) | None => None end
+  | None => None
+  end.
+Proof.
+elim: ops1 s => [|o ops1 IH] s /=; first by case: (run fuel s ops2) => [[]|].
+case: (step fuel s o) => [[s1 ob]|//]; rewrite IH.
+case: (run fuel s1 ops1) => [[s2 o1]|//]; by case: (run fuel s2 ops2) => [[]|].
+Qed.
+
+Lemma query_saved fuel s o s' (ob : obs) : is_query o -> step fuel s o = Some (s', ob) -> saved s' = saved s.
+Proof.
+case: o => //=.
+- by move=> i _; case: (get s i) => [x|//] [<- _].
+- by move=> i q _; case: (get s i) => [x|//] [<- _].
+- by move=> i q _; case: (get s i) => [x|//]; case: (an_cmp_q _ _ _) => [[x' c]|//] [<- _].
+- by move=> i _; case: (get s i) => [x|//]; case: (an_cmp_q _ _ _) => [[x' c]|//] [<- _].
+- move=> i j g _; case: (Nat.eqb i j) => //; case: (get s i) => [x|//]; case: (get s j) => [y|//].
+  by case: (an_cmp _ _ _ _) => [[[x' y'] c]|//] [<- _].
+- by move=> i _; case: (get s i) => [x|//] [<- _].
+Qed.
+
+Lemma queries_saved fuel ops s s' (obl : list obs) : List.forallb is_query ops ->
+  run fuel s ops = Some (s', obl) -> saved s' = saved s.
+Proof.
+elim: ops s s' obl => [|o ops IH] s s' obl /=; first by move=> _ [<- _].
+move=> /andP[q qs]; case S: (step fuel s o) => [[s1 ob]|//].
+case Rn: (run fuel s1 ops) => [[s2 obl2]|//] [<- _].
+by rewrite (IH _ _ _ qs Rn) (query_saved q S).
+Qed.
+
+Lemma query_not_assign o k : is_query o -> assigns o k = false.
+Proof. by case: o. Qed.
+Lemma queries_not_assign ops k : List.forallb is_query ops -> assigned_in ops k = false.
+Proof. by elim: ops => [|o ops IH] //= /andP[q /IH ->]; rewrite (query_not_assign _ q). Qed.
+
+Theorem restore_ok fuel s i x mid s' (obl : list obs) :
+  Inv s -> get s i = Some x -> List.forallb is_query mid ->
+  hist_ok fuel s (ORemember i :: mid ++ [:: ORestore i]) ->
+  run fuel s (ORemember i :: mid ++ [:: ORestore i]) = Some (s', obl) ->
+  exists x', [/\ get s' i = Some x', WF x', den x' = den x, saved s' = saved s &
+                 an_is_rational x = false -> af x' <> None -> aa x' = aa x /\ ab x' = ab x].
+Proof.
+move=> inv G qs hk Rn.
+have [inv' dd] := run_ok inv hk Rn.
+have na : ~~ assigned_in (ORemember i :: mid ++ [:: ORestore i]) i.
+  rewrite /assigned_in /= List.existsb_app /= !orbF; apply/negP => h.
+  by have := queries_not_assign i qs; rewrite /assigned_in h.
+have di := dd _ na.
+move: Rn => /=; rewrite G run_app.
+set s0 := mkState _ _.
+case R1: (run fuel s0 mid) => [[s1 o1]|//] /=.
+have sv1 : saved s1 = (i, an_remember x) :: saved s by rewrite (queries_saved qs R1).
+case G1: (get s1 i) => [x1|//]; rewrite sv1 /= Nat.eqb_refl => -[es _].
+exists (an_restore x1 (an_remember x)).
+have gs : get s' i = Some (an_restore x1 (an_remember x)) by rewrite -es; exact: (get_put_same _ G1).
+have [wfs' _] := inv'.
+split=> //; first exact: wfs' gs.
+- by move: di; rewrite /dens gs G /= => -[].
+- by rewrite -es.
+- rewrite /an_remember => -> /=; rewrite /an_is_point.
+  by case E1: (af x1) => [l1|] //=; rewrite E1.
+Qed.
+
 End Den.
